@@ -1,47 +1,184 @@
+// Package c04: no remote input makes a matcher panic or allocate without bound.
+// Every harness runs a matcher's real Match on a Connection pre-loaded (matching
+// mode) with a symbolic byte string of symbolic length. The engine's implicit
+// checks (index, slice, nil, make-size, division) are the oracle.
 package c04
 
 import (
-	"net"
-	"time"
+	"github.com/caddyserver/caddy/v2"
+
+	"github.com/miekg/dns"
 
 	"github.com/mholt/caddy-l4/layer4"
+	"github.com/mholt/caddy-l4/modules/l4dns"
+	"github.com/mholt/caddy-l4/modules/l4http"
+	"github.com/mholt/caddy-l4/modules/l4openvpn"
+	"github.com/mholt/caddy-l4/modules/l4quic"
+	"github.com/mholt/caddy-l4/modules/l4tls"
 	"github.com/mholt/caddy-l4/modules/l4postgres"
-	"go.uber.org/zap"
+	"github.com/mholt/caddy-l4/modules/l4proxyprotocol"
+	"github.com/mholt/caddy-l4/modules/l4rdp"
+	"github.com/mholt/caddy-l4/modules/l4regexp"
+	"github.com/mholt/caddy-l4/modules/l4socks"
+	"github.com/mholt/caddy-l4/modules/l4ssh"
+	"github.com/mholt/caddy-l4/modules/l4winbox"
+	"github.com/mholt/caddy-l4/modules/l4wireguard"
+	"github.com/mholt/caddy-l4/modules/l4xmpp"
 
+	"verifharness/env"
 	"verifharness/vapi"
 )
 
-// fakeConn is the underlying connection of a matching-mode Connection; Read must never be called during Match.
-type fakeConn struct{ udp bool }
-
-func (c *fakeConn) Read(p []byte) (int, error)  { vapi.Assert(false, "matcher read from the network"); return 0, nil }
-func (c *fakeConn) Write(p []byte) (int, error) { return len(p), nil }
-func (c *fakeConn) Close() error                { return nil }
-func (c *fakeConn) LocalAddr() net.Addr {
-	if c.udp {
-		return &net.UDPAddr{IP: net.IP{10, 0, 0, 1}, Port: 53}
-	}
-	return &net.TCPAddr{IP: net.IP{10, 0, 0, 1}, Port: 443}
+type provisioner interface {
+	Provision(caddy.Context) error
 }
-func (c *fakeConn) RemoteAddr() net.Addr {
-	if c.udp {
-		return &net.UDPAddr{IP: net.IP{10, 0, 0, 2}, Port: 40000}
-	}
-	return &net.TCPAddr{IP: net.IP{10, 0, 0, 2}, Port: 40000}
-}
-func (c *fakeConn) SetDeadline(t time.Time) error      { return nil }
-func (c *fakeConn) SetReadDeadline(t time.Time) error  { return nil }
-func (c *fakeConn) SetWriteDeadline(t time.Time) error { return nil }
 
-func VH_postgres() {
-	d := vapi.Bytes("D", vapi.Param("L", 16))
-	cx := layer4.WrapConnection(&fakeConn{}, d, zap.NewNop())
+func run(m layer4.ConnMatcher, defLen int, udp bool) { runP(m, defLen, udp, true) }
+
+func runP(m layer4.ConnMatcher, defLen int, udp bool, provision bool) {
+	if p, ok := m.(provisioner); ok && provision {
+		if err := p.Provision(caddy.Context{}); err != nil {
+			vapi.Log("provision-error")
+			return
+		}
+	}
+	d := vapi.Bytes("D", vapi.Param("L", defLen))
+	cx, _ := env.MatchingConn(d, udp)
 	layer4.VerifFreeze(cx)
-	m := &l4postgres.MatchPostgres{}
 	ok, err := m.Match(cx)
-	vapi.Log("verdict", ok, err)
+	layer4.VerifUnfreeze(cx)
+	vapi.Cover("match returned")
+	vapi.Log("verdict", ok, env.ErrClass(err))
 }
+
+func VH_postgres()      { run(&l4postgres.MatchPostgres{}, 16, false) }
+func VH_ssh()           { run(&l4ssh.MatchSSH{}, 8, false) }
+func VH_xmpp()          { run(&l4xmpp.MatchXMPP{}, 56, false) }
+func VH_socks4()        { run(&l4socks.Socks4Matcher{}, 12, false) }
+func VH_socks4_filter() {
+	run(&l4socks.Socks4Matcher{Commands: []string{"BIND"}, Ports: []uint16{80, 443}, Networks: []string{"10.0.0.0/8", "192.168.1.7"}}, 12, false)
+}
+func VH_socks5()        { run(&l4socks.Socks5Matcher{}, 10, false) }
+func VH_socks5_filter() { run(&l4socks.Socks5Matcher{AuthMethods: []uint16{2, 128}}, 10, false) }
+func VH_proxyproto()    { run(&l4proxyprotocol.MatchProxyProtocol{}, 16, false) }
+func VH_regexp()        { run(&l4regexp.MatchRegexp{Pattern: "^[A-Z]+ /", Count: 6}, 8, false) }
+func VH_regexp_default() { run(&l4regexp.MatchRegexp{Pattern: "^\\d\\d"}, 6, false) }
+func VH_wireguard()     { run(&l4wireguard.MatchWireGuard{}, 150, true) }
+func VH_wireguard_zero() { run(&l4wireguard.MatchWireGuard{Zero: 0xFF770000}, 150, true) }
+func VH_winbox()        { run(&l4winbox.MatchWinbox{}, 42, false) }
+
+// VH_winbox_big: lengths around the 255/257-byte chunk boundary.
+func VH_winbox_big() {
+	m := &l4winbox.MatchWinbox{}
+	_ = m.Provision(caddy.Context{})
+	d := vapi.Bytes("D", vapi.Param("L", 260))
+	vapi.Assume(len(d) >= vapi.Param("LMIN", 255))
+	cx, _ := env.MatchingConn(d, false)
+	layer4.VerifFreeze(cx)
+	ok, err := m.Match(cx)
+	layer4.VerifUnfreeze(cx)
+	vapi.Cover("match returned")
+	vapi.Log("verdict", ok, env.ErrClass(err))
+}
+
+// VH_winbox_frombytes: the auth-message parser on inputs whose length is a
+// multiple of the 257-byte chunk size (and its neighbours).
+func VH_winbox_frombytes() {
+	n := []int{256, 257, 258, 514}[vapi.Choice("len", 4)]
+	d := vapi.BytesN("D", n)
+	msg := &l4winbox.MessageAuth{}
+	err := msg.FromBytes(d)
+	vapi.Cover("match returned")
+	vapi.Log("frombytes", err)
+}
+
+func VH_winbox_filter() {
+	run(&l4winbox.MatchWinbox{Modes: []string{"romon"}, UsernameRegexp: "^adm"}, 42, false)
+}
+func VH_winbox_user() { run(&l4winbox.MatchWinbox{Modes: []string{"standard"}, Username: "ab"}, 42, false) }
+func VH_rdp()         { run(&l4rdp.MatchRDP{}, 31, false) }
+func VH_rdp_filter() {
+	run(&l4rdp.MatchRDP{CookieHash: "a", CustomInfoRegexp: "^x"}, 31, false)
+}
+func VH_rdp_token() {
+	run(&l4rdp.MatchRDP{CookieIPs: []string{"127.0.0.1/8"}, CookiePorts: []uint16{3389}}, 31, false)
+}
+
+func VH_openvpn_tcp() { run(&l4openvpn.MatchOpenVPN{}, 90, false) }
+func VH_openvpn_udp() { run(&l4openvpn.MatchOpenVPN{}, 88, true) }
+func VH_openvpn_crypt2_tcp() {
+	run(&l4openvpn.MatchOpenVPN{Modes: []string{"crypt2"}, IgnoreTimestamp: true}, 1082, false)
+}
+func VH_openvpn_crypt2_udp() { run(&l4openvpn.MatchOpenVPN{Modes: []string{"crypt2"}}, 1080, true) }
+func VH_tls()                { runP(l4tls.VerifNewMatchTLS(), 5+52, false, false) }
+func VH_quic_tcp()           { runP(&l4quic.MatchQUIC{}, 4, false, false) }
+func VH_dns_tcp()            { run(&l4dns.MatchDNS{}, 16, false) }
+func VH_dns_udp()            { run(&l4dns.MatchDNS{}, 16, true) }
+func VH_dns_rules() {
+	run(&l4dns.MatchDNS{Allow: l4dns.MatchDNSRules{&l4dns.MatchDNSRule{Type: "A"}}, Deny: l4dns.MatchDNSRules{&l4dns.MatchDNSRule{Name: "bad.example.com."}}, DefaultDeny: true}, 16, true)
+}
+
+// VH_http_ishttp drives the request-line heuristic directly (the rest of the
+// HTTP matcher is net/http and outside the claim).
+func VH_http_ishttp() {
+	d := vapi.Bytes("D", vapi.Param("L", 24))
+	needMore, matched := l4http.VerifIsHttp(d)
+	vapi.Cover("match returned")
+	vapi.Log("ishttp", needMore, matched)
+}
+
+// VH_http_match runs MatchHTTP.Match on inputs the heuristic does not accept
+// (need-more / no-match paths, which never reach net/http).
+func VH_http_match() {
+	d := vapi.Bytes("D", vapi.Param("L", 24))
+	_, matched := l4http.VerifIsHttp(d)
+	vapi.Assume(!matched)
+	cx, _ := env.MatchingConn(d, false)
+	layer4.VerifFreeze(cx)
+	ok, err := (&l4http.MatchHTTP{}).Match(cx)
+	layer4.VerifUnfreeze(cx)
+	vapi.Cover("match returned")
+	vapi.Log("verdict", ok, env.ErrClass(err))
+}
+
+var errUnpack = dns.ErrBuf
+
+// Havoc model of the third-party DNS parser (outside the claim): any result, no panic.
+//
+//verif:replace (*github.com/miekg/dns.Msg).Unpack
+func Repl_dnsUnpack(m *dns.Msg, b []byte) error {
+	if vapi.Bool("dns.unpack.err") {
+		return errUnpack
+	}
+	m.Response = vapi.Bool("dns.response")
+	m.Zero = vapi.Bool("dns.zero")
+	m.Rcode = vapi.Int("dns.rcode", 0, 4095)
+	nq := vapi.Int("dns.nq", 0, vapi.Param("NQ", 1))
+	for i := 0; i < nq; i++ {
+		name := "good.example.com."
+		if vapi.Bool("dns.qname.bad") {
+			name = "bad.example.com."
+		}
+		m.Question = append(m.Question, dns.Question{Name: name, Qtype: vapi.Uint16("dns.qtype"), Qclass: vapi.Uint16("dns.qclass")})
+	}
+	return nil
+}
+
+//verif:replace (*github.com/miekg/dns.Msg).Len
+func Repl_dnsLen(m *dns.Msg) int { return vapi.Int("dns.len", 0, 65535) }
 
 func init() {
-	vapi.Register("c04.VH_postgres", VH_postgres)
+	for name, f := range map[string]func(){
+		"VH_openvpn_tcp": VH_openvpn_tcp, "VH_openvpn_udp": VH_openvpn_udp, "VH_openvpn_crypt2_tcp": VH_openvpn_crypt2_tcp,
+		"VH_openvpn_crypt2_udp": VH_openvpn_crypt2_udp, "VH_tls": VH_tls, "VH_quic_tcp": VH_quic_tcp, "VH_dns_tcp": VH_dns_tcp,
+		"VH_dns_udp": VH_dns_udp, "VH_dns_rules": VH_dns_rules, "VH_http_ishttp": VH_http_ishttp, "VH_http_match": VH_http_match,
+		"VH_postgres": VH_postgres, "VH_ssh": VH_ssh, "VH_xmpp": VH_xmpp, "VH_socks4": VH_socks4,
+		"VH_socks4_filter": VH_socks4_filter, "VH_socks5": VH_socks5, "VH_socks5_filter": VH_socks5_filter,
+		"VH_proxyproto": VH_proxyproto, "VH_regexp": VH_regexp, "VH_regexp_default": VH_regexp_default,
+		"VH_wireguard": VH_wireguard, "VH_wireguard_zero": VH_wireguard_zero, "VH_winbox": VH_winbox, "VH_winbox_big": VH_winbox_big, "VH_winbox_frombytes": VH_winbox_frombytes,
+		"VH_winbox_filter": VH_winbox_filter, "VH_winbox_user": VH_winbox_user, "VH_rdp": VH_rdp,
+		"VH_rdp_filter": VH_rdp_filter, "VH_rdp_token": VH_rdp_token,
+	} {
+		vapi.Register("c04."+name, f)
+	}
 }
